@@ -2,7 +2,10 @@
    Executable mirror of
      src/Platforms/Gcc/UtestPlatform.cpp   PlatformSpecificSetJmpImplementation / LongJmp / RestoreJumpBuffer (jmp_buf_index)
      src/CppUTest/Utest.cpp                Utest::run (both #if variants), UtestShell::runOneTest, runOneTestInCurrentProcess,
-                                           fail / failWith / addFailure, the terminators, IgnoredUtestShell::runOneTest
+                                           fail / failWith / addFailure, the terminators, IgnoredUtestShell::runOneTest,
+                                           every UtestShell::assert* entry point (countCheck first, then failWith at the location given)
+     src/CppUTest/TestHarness_c.cpp        the C-interface functions in front of them (TestTerminatorWithoutExceptions)
+     include/CppUTest/UtestMacros.h        CHECK_COMPARE_LOCATION (calls assertCompare only when the comparison does not hold)
      src/CppUTest/TestRegistry.cpp         runAllTests (counting, filter, current test started/ended)
      src/CppUTest/TestResult.cpp/.h        the six counters, isFailure
      src/CppUTest/TestOutput.cpp           printTestsEnded (as a structured summary; the time is not modelled)
